@@ -19,6 +19,8 @@ def project(t):
 def correspondence(ctx):
     cases = S.cases_for(ctx, 20000, 400000)
     def versions_of(fam, i):
+        if fam.startswith(("idiom:", "suffix:", "wrapped:", "twice:")):
+            return G.FORK            # coin-specific idioms (Namecoin name operations ...): every fork coin sees every one
         if not fam[0].islower() or ":" in fam or "-" in fam and not fam.endswith("~"):
             return G.FORK if i % 3 == 0 else [G.FORK[i % 6]]
         return [G.FORK[i % 6], G.FORK[(i // 6 + 1) % 6]]
